@@ -11,6 +11,7 @@ import Properties.C01V3
 import Properties.C06V3
 
 namespace Mqtt.V3
+namespace SpecEnc
 open Spec
 
 /-! ### assembly: frame ▸ fields ▸ valid ▸ project -/
@@ -559,4 +560,5 @@ theorem spec_decodes_encoding (m debug : Bool) (p : Packet) (hv : p.valid = true
       (by simp only [Packet.encode, henc, Packet.encode.dyn]) rfl
       (spec_unsubscribe m u t hp hne hall hlt) hlt u.encode_length
 
+end SpecEnc
 end Mqtt.V3
